@@ -142,7 +142,7 @@ def run(tier, seed):
              consts=consts(3, 5 if q else 6, [0, 1, 2, 3, 6, 7], acts=ACTS - {"seterr"})),
         # accept faults: every script position x every failure, error callback doing nothing / disable / free
         dict(name="C44_exh_faults", n=3,
-             consts=consts(3, 5 if q else 6, [2, 3], acts={"connect", "loop", "seterr", "free"},
+             consts=consts(3, 5, [2, 3], acts={"connect", "loop", "seterr", "free"},
                            ascr=ascripts(1, ["again", "abort", "emfile", "nomem"] if q else FAILS) | fault_scripts,
                            cbacts={"free", "disable"}, cbpos=1, erracts=("none", "disable", "free"))),
         # accepted-socket flags and the locking variant
